@@ -239,7 +239,13 @@ def run(facts, rep, tier):
                 for l in loops:
                     c = l.n('c')
                     iters += sum(1 for e in E if e.kind == 'branch' and c is not None and e.node is not None and e.node.id == c.id and e.val is True)
-                ok = len(lcs) == 1 and len(recs) == iters
+                # a child that is skipped because its name is exactly "." or ".." is this directory / its parent, not something beneath it
+                # (listChildren() never reports them: PA.2)
+                def _dot_test(c_):
+                    lits = [x.v for x in c_.walk() if x.k == 'str']
+                    return bool(lits) and all(v_ in ('.', '..') for v_ in lits) and (any(x.k == 'call' and ((x.ck == 'op' and x.op == '==') or x.callee_base() in ('strcmp', 'compare')) for x in c_.walk()) or (c_.k == 'binop' and c_.op == '=='))
+                dot_skips = sum(1 for c_, v_, h_ in Pp.decisions if c_ is not None and v_ is True and _dot_test(c_))
+                ok = len(lcs) == 1 and (len(recs) == iters or (len(recs) < iters and len(recs) + dot_skips >= iters))
                 rep.check(ok, 'PA.3', f'size() of a directory: one recursive size() per child ({iters} children on this path)', sz.shortloc(), f'{len(recs)} recursive size() calls for {iters} children: a directory\'s size is not the total of everything beneath it', key='PA.3|dir', fn=sz.name)
                 if ok and iters:
                     want = Lin.const(0)
